@@ -319,5 +319,38 @@ ROUND3_TECH = {
 for _k, _v in ROUND3_TECH.items():
     CLAIMS[_k]["technique"] = CLAIMS[_k]["technique"] + _v
 
+# ---- round-3b addenda: rules written after the third seeding / refactoring round (DESIGN.md §8.7) ----------------------
+ROUND3B = {
+ "C06": " Every rotation is applied to a node that is known, on that path, to be the corresponding child of its parent (K.rotation-operand: "
+        "a per-path shape analysis over child links whose facts come from accessor reads and equality tests and are rewritten by each "
+        "rotation).",
+ "C07": " The query callback is invoked nowhere but in the search whose structure is verified (who-may-call); aggregate() is decided by "
+        "interpretation over small valuations, aggregate_path on the CFG (early break or return alike).",
+ "C11": " Entered with the deferred flag set, a member leaves the flag set or has stored the advanced period counter on that path (E.deferred-owed).",
+ "C12": " The guards' move constructor is decided by symbolic execution of the (mutex, flag) pairs of source and destination; the ticket lock's "
+        "hand-over value as a polynomial over the atomic loads.",
+ "C13": " Relocation rules are stated on classified events wherever growth is written (helper, callee or folded caller); the new allocation "
+        "covers the request that triggered the growth; a by-reference parameter of the container's own class is read before anything of *this "
+        "is destroyed unless the two are known to be different objects; every member that takes an element out of an intrusive list itself "
+        "repairs both sides on every path.",
+ "C14": " Hash reductions written directly inside a subscript take part in the sibling agreement.",
+ "C15": " A subscript of a `const char *` parameter needs index <= strlen of that parameter (B.cstring-subscript-bounded); pointer iteration "
+        "over a view is bounded through the pointer's offset from the character pointer.",
+ "C16": " No member assigns the owner's allocator field and afterwards releases memory through it (O.allocator-stable).",
+ "C17": " apply hands the elements of a tuple to the functor with the value category std::apply would (witness functor overloaded on "
+        "int& / int&& / const int&).",
+ "C18": " The bit proxy's copy assignment is user-provided (a defaulted one rebinds the proxy).",
+ "C20": " The sub_string assertion is also examined through once-initialised locals (a sum of two caller-controlled operands may hide in one).",
+}
+for _k, _v in ROUND3B.items():
+    CLAIMS[_k]["text"] = CLAIMS[_k]["text"] + _v
+ROUND3B_TECH = {
+ "C06": "; per-path shape analysis over child-link facts with rotation transfer functions",
+ "C12": "; symbolic execution of field pairs; polynomial value of the hand-over store",
+ "C15": "; relational bounds over pointer offsets and over strlen-derived lengths",
+}
+for _k, _v in ROUND3B_TECH.items():
+    CLAIMS[_k]["technique"] = CLAIMS[_k]["technique"] + _v
+
 NOT_YET = "check not built yet in this revision (see DESIGN.md §7 order of work); not claimed until it exists"
 NA = {}
